@@ -208,6 +208,18 @@ Example C17_odd_entries_example :
   /\ pend (fst r) = [] /\ cache (fst r) = 7.
 Proof. exact odd_entries_are_skipped. Qed.
 
+(* "Every extraction starts with a scan": in the model an extraction IS a thread entering the
+   installation routine (PIdle -> PEnter), which is the situation C17_timely / C17_timely_builtin speak
+   about.  That the code matches this for EVERY public entry point is a structural source fact,
+   re-extracted on every run (harness/facts_c17.py, fail-closed): extract_iter -- the generator driven
+   by extract, extract_child, extract_outermost, and through extract by extract_since / extract_until --
+   calls add_glue_as_needed() unconditionally before its first yield.  (fill_context() outside an
+   extraction is not an extraction and performs no scan: modelled as no step, checked by the
+   correspondence.)  The correspondence exercises all entry points, the re-entrant extract_child included. *)
+Theorem C17_every_entry_point_scans : SrcFacts.c17_scan_at_every_entry = true.
+Proof. reflexivity. Qed.
+Print Assumptions C17_every_entry_point_scans.
+
 (* Remaining gap (stated, not proved): liveness-style "the scanning thread completes" is proved for
    the thread running on its own (C17_failure_scan_completes); under interleaving no other thread
    can enter the locked region (C17_cache_invariant, gi_L1), and the safety consequences --
